@@ -14,11 +14,14 @@ pub struct LiqRef {
 }
 
 /// the liquidation margin ratio as the statement defines it, from pre-state queries
-pub fn ratio_liq(preq: &PreQ, margin: U, f: i128, spot_price: U, d: U) -> Option<LiqRef> {
+pub fn ratio_liq(preq: &PreQ, margin: U, f: i128, spot_price: U, d: U, twap_ref: Option<(U, i128)>) -> Option<LiqRef> {
     let sn = pq_field_u(preq, "pnl_spot", "position_notional")?;
     let sp = pq_field_i(preq, "pnl_spot", "unrealized_pnl")?;
-    let tn = pq_field_u(preq, "pnl_twap", "position_notional")?;
-    let tp = pq_field_i(preq, "pnl_twap", "unrealized_pnl")?;
+    // the 15-minute TWAP figures: the harness's own when it could compute them, else the engine's query
+    let (tn, tp) = match twap_ref {
+        Some(x) => x,
+        None => (pq_field_u(preq, "pnl_twap", "position_notional")?, pq_field_i(preq, "pnl_twap", "unrealized_pnl")?),
+    };
     let (mut which, n, pl) = if sp.unsigned_abs() > tp.unsigned_abs() { ("twap", tn, tp) } else { ("spot", sn, sp) };
     let mut r = ratio(margin, pl, f, n, d)?;
     let mut over = false;
@@ -68,7 +71,13 @@ pub fn step(ctx: &Ctx, w: &World, ev: &mut Ev) {
         Some(x) => x,
         None => return,
     };
-    let lr = match ratio_liq(ctx.preq, pos.margin, f, ctx.pre.vamms[v].spot, d) {
+    let twap_ref = ctx.model.prices.get(v).and_then(|recs| twap_output_ref(recs, pos.dir, pos.size.unsigned_abs(), 900, ctx.post.time, ctx.pre.vamms[v].decimals.max(1))).and_then(|tn| pnl(pos.dir, tn, pos.notional).map(|tp| (tn, tp)));
+    match (&twap_ref, pq_field_u(ctx.preq, "pnl_twap", "position_notional")) {
+        (Some((tn, _)), Some(en)) => ev.count(if *tn == en { "twap15_reference_equals_engine_figure" } else { "twap15_reference_differs_from_engine_figure" }),
+        (None, _) => ev.count("twap15_reference_unavailable"),
+        _ => {}
+    }
+    let lr = match ratio_liq(ctx.preq, pos.margin, f, ctx.pre.vamms[v].spot, d, twap_ref) {
         Some(x) => x,
         None => {
             ev.count("ratio_unavailable");
